@@ -240,6 +240,7 @@ def run(facts, tr, rep):
             holds = (e["label"] == "true") != neg
             gate_ok = ok_all and holds
             false_tgt = e["sw"].variants["true" if neg else "false"]
+            gate_pass = (e["bb"], e["sw"].variants["false" if neg else "true"])
             gate_where = g.where(e["bb"])
     rep.ob("C17.GATE", skey(b, "predicate-gate"), gate_ok, gate_where,
            "the strategy runs only when handle_predicate.map(|p| p(&error)).unwrap_or(true) is true for the current error" if gate_ok else
@@ -274,6 +275,49 @@ def run(facts, tr, rep):
     # ---------------------------------------------------------------- ARMS
     req_clone_ok = None
     narm = 0
+    # The strategy is immutable configuration; a second `match` on it ahead of the dispatch (`let error = match strategy {
+    # Exception(t) => t(error), _ => error }`) decides the same way as the dispatch does.  What such a match did under
+    # the edges of *other* variants cannot have happened on the way into the arm of variant v.
+    def _norm(n_, depth=0):
+        """the place read, with `Arc::deref` calls looked through (two reads of `config.strategy` deref the Arc twice)"""
+        n_ = peel(n_)
+        if depth > 8:
+            return n_
+        if n_[0] == "field":
+            return ("field", _norm(n_[1], depth + 1), n_[2], n_[3])
+        if n_[0] in ("deref", "ref"):
+            return _norm(n_[1], depth + 1)
+        if n_[0] == "call" and tr.call_of(n_).def_ in ("core::ops::deref::Deref::deref", "core::convert::AsRef::as_ref", "core::borrow::Borrow::borrow") and tr.call_of(n_).args:
+            cc_ = tr.call_of(n_)
+            return _norm(tr.expand(tr.operand(cc_.g.b, cc_.args[0], cc_.loc), upvars=True), depth + 1)
+        return n_
+    strat_node = _norm(tr.expand(tr.place(b, strat_sw.place, strat_sw.defloc)))
+    others_sw = []
+    for bb_ in range(g.n):
+        sw_ = g.switch(bb_)
+        if sw_ is None or sw_.kind != "enum" or bb_ == strat_sw.bb or not g.live(bb_):
+            continue
+        if _norm(tr.expand(tr.place(b, sw_.place, sw_.defloc))) == strat_node:
+            others_sw.append(sw_)
+
+    def labels_at(bb_):
+        """per other strategy switch that decides bb_: the variants under which bb_ is reached"""
+        out = []
+        for sw_ in others_sw:
+            labs = set()
+            tgts_ = set(sw_.variants.values()) | {sw_.otherwise}
+            for t_ in tgts_:
+                if t_ is not None and t_ >= 0 and g.edge_dominates((sw_.bb, t_), bb_):
+                    labs |= {nm for nm, tb in sw_.variants.items() if tb == t_}
+                    if t_ == sw_.otherwise:
+                        labs |= set(getattr(sw_, "rest", []))
+            if labs:
+                out.append(labs)
+        return out
+
+    def feasible_in(bb_, v_):
+        return all(v_ in labs for labs in labels_at(bb_))
+    gate_pass_ = locals().get("gate_pass")
     for v, spec in ARMS.items():
         tgt = strat_sw.variants.get(v)
         if tgt is None:
@@ -292,17 +336,30 @@ def run(facts, tr, rep):
             ok = bool(cl) and not calls_here
             detail = "returns a clone of the configured value"
         else:
+            pre = False
+            if not calls_here and others_sw:
+                # the arm's one user call made ahead of the dispatch, under this very variant of another match on the strategy
+                # (and behind the predicate gate like the dispatch itself)
+                cand = [x for x in _user_calls(tr, b) if labels_at(x.bb) and all(labs == {v} for labs in labels_at(x.bb))
+                        and strat_sw.bb in g.reach([x.bb], kinds=(N,)) and (gate_pass_ is None or g.edge_dominates(gate_pass_, x.bb))]
+                if len(cand) == 1:
+                    calls_here, pre = cand, True
             if len(calls_here) != 1:
                 rep.ob("C17.ARMS", skey(b, "arm." + v), False, g.where(tgt), "arm %s calls user code %d times (expected exactly once)" % (v, len(calls_here)))
                 continue
             uc = calls_here[0]
             callee = peel(tr.expand(tr.operand(b, uc.args[0], uc.loc)))
             callee_ok = derives(tr, callee, payload_node[1], variants=None) and any(x[0] == "downcast" and x[2] == v for x in tr.walk(callee, limit=30))
+            if pre and not callee_ok:
+                callee_ok = any(x[0] == "downcast" and x[2] == v and _norm(x[1]) == strat_node for x in tr.walk(callee, limit=30))
             args = peel(tr.expand(tr.operand(b, uc.args[1], uc.loc)))
             parts = []
             if args[0] == "agg":
                 parts = [peel(tr.expand(x)) for x in tr.children(args)]
-            is_err = lambda n: derives(tr, n, R, variants=("Ready", "Err"))
+            def is_err(n, v_=v):
+                alts = [peel(x) for x in leaves(n)]
+                live_ = [x for x in alts if not (x[0] == "call" and not feasible_in(tr.call_of(x).bb, v_))]
+                return bool(live_) and all(derives(tr, x, R, variants=("Ready", "Err")) for x in live_)
             is_reqclone = lambda n: n[0] == "call" and tr.call_of(n).def_ == CLONE or (n[0] in ("upvar", "param"))
             def reqclone(n):
                 n = peel(tr.expand(n, upvars=True, params=False))
@@ -330,9 +387,29 @@ def run(facts, tr, rep):
             elif spec == "exc":
                 ok = callee_ok and len(parts) == 1 and is_err(parts[0])
                 detail = "transforms the current error"
+                ucn = ("call", b.crate.name, b.def_, uc.bb)
+
+                def _is_transformed(op_, loc_):
+                    if peel(tr.expand(tr.operand(b, op_, loc_))) == ucn:
+                        return True
+                    pl_ = op_.get("move") or op_.get("copy")
+                    if not pre or pl_ is None or pl_["p"]:
+                        return False
+                    # resolved ahead of the dispatch: of the definitions that reach the arm, those made under this variant
+                    l_, at_ = pl_["l"], loc_
+                    for _hop in range(6):
+                        ds_ = g.reaching(l_, at_)
+                        if len(ds_) == 1 and ds_[0][3] == "assign" and not ds_[0][4] and ds_[0][5]["k"] == "use":
+                            src_ = ds_[0][5]["op"].get("move") or ds_[0][5]["op"].get("copy")
+                            if src_ is not None and not src_["p"]:
+                                l_, at_ = src_["l"], (ds_[0][1], ds_[0][2])
+                                continue
+                        break
+                    ds_ = [d_ for d_ in g.reaching(l_, at_) if feasible_in(d_[1], v)]
+                    return bool(ds_) and all(peel(tr.expand(tr._defnode(b, g, d_, 0))) == ucn for d_ in ds_)
                 inn = [(i, j) for i, blk in enumerate(b.blocks) for j, s in enumerate(blk["stmts"])
                        if s["k"] == "assign" and s["rv"]["k"] == "agg" and s["rv"].get("variant") == "Inner" and i in arm
-                       and peel(tr.expand(tr.operand(b, s["rv"]["ops"][0], (i, j)))) == ("call", b.crate.name, b.def_, uc.bb)]
+                       and _is_transformed(s["rv"]["ops"][0], (i, j))]
                 ok = ok and bool(inn)
         rep.ob("C17.ARMS", skey(b, "arm." + v), ok, g.where(tgt),
                "strategy %s %s, using its own payload" % (v, detail) if ok else
